@@ -165,6 +165,14 @@ def strategy_rebalance(chk, pid):
             u = bound_args(e, chk.prog).get("update")
             chk.ob("C06.R4" if not_fi else "C17.R5", u is not None and canon(u) == canon(("param", "update")), CORE, host, "delta-update-flag:%s" % e.name,
                    "the caller's update flag is passed on", where=e.where)
+    if pid in ("C06", "C17"):
+        zw = ("zero", sym._abs_norm(sym.to_rat(weight)))
+        rets = [e for e in S.events if e.kind == "return" and e.chain == (fi.qual,)]
+        early = [e for e in rets if any(e.seq < t.seq for t in trades)]
+        bad = [e for e in early if not sym.lit_holds(G(e), zw, True)]
+        chk.ob("C06.R5", not bad, CORE, host, "always-trades-nonzero-weight", "for a non-zero target weight the child is always traded to its target: there is no other early exit "
+               "(a child already at weight w still has to move when the base differs from the current value)", where=bad[0].where if bad else fi.where,
+               expected="return only under is_zero(weight)", found="; ".join(sym.fmt_guard(plain(e.guard))[:120] for e in bad))
     if pid == "C06":
         chk.ob("C06.R4", seen["mv"] > 0, CORE, host, "delta-present:mv", "the market-value branch must be present", where=fi.where)
         # R5: zero weight closes; NaN base falls back to the own value; lazy child created before lookup
